@@ -2,6 +2,9 @@
 //! `NotificationHandle`, `NotificationSink`, `Connection` and `Substream` of litep2p over
 //! scripted in-memory carriers. Case/trace format: see coq/C12/Glue.v.
 use crate::util::*;
+
+#[path = "c12_start.rs"]
+mod start;
 use futures::{future::BoxFuture, FutureExt, StreamExt};
 use litep2p::{
     codec::ProtocolCodec,
@@ -648,6 +651,7 @@ struct SEp {
     shutdown: Option<oneshot::Sender<()>>,
     probe: Option<NotificationSink>,
     keep: Vec<NotificationSink>,
+    keep_per: Vec<u64>, // the stream each kept clone belongs to
     per: u64,     // period of the current / last Connection
     sink_per: Option<u64>,
     futs: Vec<(u64, SendFut)>,
@@ -694,6 +698,7 @@ impl SWorld {
                 shutdown: None,
                 probe: None,
                 keep: Vec::new(),
+                keep_per: Vec::new(),
                 per: 0,
                 sink_per: None,
                 futs: Vec::new(),
@@ -738,6 +743,7 @@ impl SWorld {
         e.conn = Some(fut);
         e.shutdown = Some(shutdown);
         e.keep.push(sink.clone());
+        e.keep_per.push(p);
         self.conn_ids.push(sink.verif_stream_id());
         let e = &mut self.eps[x];
         e.probe = Some(sink);
@@ -834,6 +840,7 @@ fn parse_sched(c: &[u64]) -> Option<([u64; 5], [u64; 5], Vec<Vec<u64>>)> {
             6 | 7 | 8 | 11 => 2,
             9 => 4,
             10 => 1,
+            12 => 5,
             _ => return None,
         };
         if i + l > c.len() {
@@ -842,9 +849,12 @@ fn parse_sched(c: &[u64]) -> Option<([u64; 5], [u64; 5], Vec<Vec<u64>>)> {
         let a = c[i..i + l].to_vec();
         let sz = match tag {
             0 => Some((a[2], a[3])),
-            1 => Some((a[3], a[4])),
+            1 | 12 => Some((a[3], a[4])),
             _ => None,
         };
+        if tag == 12 && a[2] > 255 {
+            return None;
+        }
         if let Some((t, len)) = sz {
             if len < 4 || len > 1 << 22 || t >= 65536 {
                 return None;
@@ -905,6 +915,8 @@ struct Feedback {
     pending: [Vec<u64>; 2],
     open: [bool; 2],
     alive: [bool; 2],
+    /// stream of the current / last Connection of each endpoint
+    per: [u64; 2],
 }
 
 trait StepSrc {
@@ -1087,6 +1099,20 @@ async fn run_steps(
                     out.push(0);
                 }
             }
+            // a clone of the sink of stream a[2], used directly (no handle)
+            12 => {
+                let e = &w.eps[x];
+                let r = match e.keep_per.iter().rposition(|p| *p == a[2]) {
+                    None => 2,
+                    Some(i) => match e.keep[i].send_sync_notification(spayload(x == 1, a[2], true, a[3], a[4])) {
+                        Ok(()) => 0,
+                        Err(NotificationError::ChannelClogged) => 1,
+                        Err(NotificationError::NoConnection) => 2,
+                        Err(_) => 9,
+                    },
+                };
+                out.push(r);
+            }
             // the protocol takes a command but its force_close() fails (connection already gone)
             11 => match w.eps[x].side.command_rx.try_recv() {
                 Ok(NotificationCommand::ForceClose { .. }) => out.push(1),
@@ -1099,6 +1125,7 @@ async fn run_steps(
             fb.pending[x] = w.eps[x].futs.iter().map(|(id, _)| *id).collect();
             fb.open[x] = w.eps[x].sink_per.is_some();
             fb.alive[x] = w.alive(x);
+            fb.per[x] = w.eps[x].per;
         }
     }
     let pops = take_pops();
@@ -1149,6 +1176,8 @@ struct SGen {
     queue: std::collections::VecDeque<Vec<u64>>,
     // a stretch during which one Connection is not polled (its queues and waiters build up)
     starve: Option<(u64, u64)>,
+    /// stream of the current / last Connection of each endpoint, as of the last feedback
+    last_per: [u64; 2],
 }
 
 impl SGen {
@@ -1172,7 +1201,7 @@ impl SGen {
                 queue.push_back(vec![5, 0, 128]);
             }
         }
-        SGen { rng, cfgs, big, single, only_mode, nsteps, emitted: 0, tag: 0, next_id: 0, queue, starve: None }
+        SGen { rng, cfgs, big, single, only_mode, nsteps, emitted: 0, tag: 0, next_id: 0, queue, starve: None, last_per: [0; 2] }
     }
 
     fn size(&mut self, x: usize) -> u64 {
@@ -1203,6 +1232,17 @@ impl SGen {
         let m = if self.single { self.only_mode[x as usize] } else { mode };
         let sz = self.size(x as usize);
         if m == 0 {
+            // one in five synchronous sends goes through a clone of the sink: mostly the current stream, sometimes
+            // an earlier or a not yet existing one
+            if self.rng.chance(20) {
+                let cur = self.last_per[x as usize];
+                let k = match self.rng.below(10) {
+                    0 => cur.saturating_sub(1),
+                    1 => cur + 1,
+                    _ => cur,
+                };
+                return vec![12, x, k.min(255), self.tag, sz];
+            }
             vec![0, x, self.tag, sz]
         } else {
             self.next_id += 1;
@@ -1211,6 +1251,7 @@ impl SGen {
     }
 
     fn fill(&mut self, fb: &Feedback) {
+        self.last_per = fb.per;
         let x = self.rng.below(2);
         let xi = x as usize;
         if let Some((sx, left)) = self.starve {
@@ -1473,7 +1514,13 @@ pub fn main(args: &Args) {
         stored = read_cases(Path::new(d));
     }
     for c in stored.iter() {
-        let (c, t) = if c.first() == Some(&SCHED_MARK) { run_sched(c) } else { run_case(c) };
+        let (c, t) = if c.first() == Some(&start::MARK) {
+            start::run_case(c, true)
+        } else if c.first() == Some(&SCHED_MARK) {
+            run_sched(c)
+        } else {
+            run_case(c)
+        };
         out.emit(&c, &t);
     }
     if args.str("replay").is_some() {
@@ -1481,7 +1528,10 @@ pub fn main(args: &Args) {
     }
     for i in 0..ncases {
         let mut r = rng.fork();
-        let (c, t) = if i % 2 == 0 {
+        // every fourth case belongs to the start stream (real NotificationProtocol), the others alternate
+        let (c, t) = if i % 4 == 3 {
+            start::gen_run(r, thorough)
+        } else if i % 2 == 0 {
             run_case(&gen_case(&mut r, thorough))
         } else {
             gen_run_sched(r, thorough)
